@@ -23,10 +23,10 @@ import (
 type config struct {
 	isn            uint32
 	perConn, total int
-	keep           int // 0 never, 1 always from 0, 2 always the last byte, 3 alternate 0 / last byte
+	keep           int // 0 never, 1 always from 0, 2 always the last byte, 3 alternate 0 / last byte, 4 always from offset 1, 5 always from the middle
 }
 
-var keepNames = []string{"never", "from-0", "last-byte", "alternate"}
+var keepNames = []string{"never", "from-0", "last-byte", "alternate", "from-1", "middle"}
 
 func (c config) String() string {
 	return fmt.Sprintf("isn=%d maxPerConn=%d maxTotal=%d keep=%s", c.isn, c.perConn, c.total, keepNames[c.keep])
@@ -92,8 +92,12 @@ func (s *stream) ReassembledSG(sg reassembly.ScatterGather, ac reassembly.Assemb
 		} else {
 			off = l - 1
 		}
+	case 4:
+		off = 1
+	case 5:
+		off = l / 2
 	}
-	if off >= 0 && l > 0 {
+	if off >= 0 && off < l {
 		sg.KeepFrom(off)
 		s.inst.Keep(all[off:])
 	} else {
@@ -222,11 +226,11 @@ func main() {
 	// 2^32-1) x 3 limit settings x 2 keep behaviours; thorough: the full grid
 	isns := []uint32{0, 1<<31 - 3, uint32(uint64(1)<<32 - uint64(n) - 3), 1<<32 - 3, 1<<32 - 1}
 	limits := [][2]int{{0, 0}, {2, 0}, {0, 2}}
-	keeps := []int{0, 3}
+	keeps := []int{0, 3, 4}
 	if r.Thorough() {
 		isns = tm.ISNs(n)
 		limits = [][2]int{{0, 0}, {1, 0}, {2, 0}, {0, 2}, {1, 2}}
-		keeps = []int{0, 1, 2, 3}
+		keeps = []int{0, 1, 2, 3, 4, 5}
 	}
 	alpha := tm.Alphabet(n, true, false)
 	if rp := os.Getenv("VERIF_REPLAY"); rp != "" {
@@ -291,12 +295,12 @@ func main() {
 	mpCuts := []int{0, 100, 2100, 2200, 2300}
 	mpIsns := []uint32{1000, uint32(uint64(1)<<32 - 1200)}
 	mpLimits := [][2]int{{0, 0}, {3, 0}}
-	mpKeeps := []int{0, 3}
+	mpKeeps := []int{0, 3, 5}
 	if r.Thorough() {
 		mpCuts = []int{0, 100, 1100, 2100, 4100, 4200, 4300}
 		mpIsns = append(mpIsns, 1<<31-1200)
 		mpLimits = append(mpLimits, [2]int{2, 0}, [2]int{0, 4})
-		mpKeeps = []int{0, 1, 2, 3}
+		mpKeeps = []int{0, 1, 2, 3, 4, 5}
 	}
 	families := []family{
 		{"short", nil, n, isns, limits, keeps, depth},
